@@ -369,7 +369,9 @@ func (p *parser) compound() *refnbt.Value {
 		case isBare(c):
 			key = p.bare()
 			if v, ok := Literal(key); !ok || v.Tag != refnbt.String {
-				p.lenientBecause("number-like bare key")
+				// a reader may insist on quotes here, but one that takes the key takes its text: keys are read as
+				// unquoted strings, never as numbers
+				p.lenientButTyped("number-like bare key")
 			}
 		default:
 			p.fail(fmt.Sprintf("missing key before %q", c))
@@ -601,6 +603,25 @@ func (l *Layout) str(sb *strings.Builder, s string) {
 	sb.WriteByte(q)
 }
 
+// key writes a compound key: like a string, except that a key made of bare characters that reads as a number
+// ("1", "2b", ".5") is sometimes left without quotes - texts written by hand do that.
+func (l *Layout) key(sb *strings.Builder, s string) {
+	if s != "" && needsQuote(s) && l.R.Intn(2) == 0 {
+		bare := true
+		for i := 0; i < len(s); i++ {
+			if !isBare(s[i]) {
+				bare = false
+			}
+		}
+		if bare {
+			sb.WriteString(s)
+			l.f("key.bare-number-like")
+			return
+		}
+	}
+	l.str(sb, s)
+}
+
 func (l *Layout) suffix(lower, upper string) string {
 	if l.R.Bool() {
 		l.f("suffix.lower")
@@ -741,7 +762,7 @@ func (l *Layout) Render(sb *strings.Builder, v *refnbt.Value) {
 				sb.WriteByte(',')
 			}
 			l.sp(sb)
-			l.str(sb, e.Name)
+			l.key(sb, e.Name)
 			l.sp(sb)
 			sb.WriteByte(':')
 			l.sp(sb)
